@@ -73,6 +73,21 @@ def p_fallback(k, cls):
     return a
 
 
+def reader_of_always():
+    vlog.hit("reader_of_always")
+    return ("read", dds.load("/c10r/always"))
+
+
+def p_load_after_caught_failure(k, cls):
+    """the failure of a kept call is caught; later the same evaluation keeps a function that loads that call's path."""
+    vlog.hit("p_load_after_caught_failure")
+    try:
+        dds.keep("/c10r/always", always_fails, k, cls)
+    except BaseException:
+        pass
+    return dds.keep("/c10r/flaky", reader_of_always)
+
+
 def p_good_only(k):
     vlog.hit("p_good_only")
     return ("good-only", dds.keep("/c10r/good", good, k))
